@@ -657,6 +657,7 @@ func checkC17(p *Prog, r *Result, tier string) {
 	r.Rule("C17.R6", "Create on an existing collection changes the runtime settings only: the fields of the stored (published) schema that determine the on-disk layout (Extension, Compress, Fields) are never written; such stores only ever hit the caller's own schema value", 0)
 	r.Rule("C17.R7", "the stored descriptors are authoritative: a function that assigns the Fields of an existing schema value (not one it has just allocated) does so only under `Fields == nil`; an emptiness test would replace the stored (empty) descriptor map of a collection by the descriptors of the current struct and make the structure comparison vacuous", 1)
 	checkFieldsNilGuard(p, r, "C17.R7")
+	r.Rule("C17.R8", "switching settings does not disturb the running process: every successful return of Create that changed the cache / async settings of a stored schema dropped the cached objects of that collection (the cache is only maintained while the settings say to use it)", 1)
 	r.Rule("C17.R3", "Create: settings are assigned and the schema file overwritten only after a successful compatibility check; a new collection's schema file is written only when none exists and published only after a successful control", 3)
 	r.Rule("C17.R4", "compatibility is symmetric: both descriptor comparisons range over both maps, look each path up in the other map and use the same comparator both ways", 2)
 	r.Rule("C17.R5", "settings are read safely: every dereference of the async settings pointer happens where the pointer is known to be non-nil (nil test or enabled-predicate on the same path)", 3)
@@ -736,8 +737,17 @@ func checkC17(p *Prog, r *Result, tier string) {
 	// R3
 	if cr := p.FuncByName("DB.Create"); cr != nil {
 		vals := []Valuation{{FileExists: triYes}, {FileExists: triNo}}
-		exploreAll(p, c, jobsFor([]*ssa.Function{cr}, vals), effs(EOkCompat, EOkSchema, EOkStruct, ECallFlushPend), r, func(j exploreJob) Listener {
-			return &effListener{p: p, r: r, root: j.root, val: j.val, onEvent: func(l *effListener, x *Explorer, st *State, ev *Event) {
+		exploreAll(p, c, jobsFor([]*ssa.Function{cr}, vals), effs(EOkCompat, EOkSchema, EOkStruct, ECallFlushPend, ECfgW, EDelCache, ECallDelCache), r, func(j exploreJob) Listener {
+			return &effListener{p: p, r: r, root: j.root, val: j.val, onReturn: func(l *effListener, x *Explorer, st *State, ret *ssa.Return, res []Fact) {
+				if e, _ := errResult(l.root, res); e == triNo || !st.must.Has(ECfgW) {
+					return
+				}
+				if st.must.Has(EDelCache) || st.must.Has(ECallDelCache) {
+					l.ok("C17.R8", FuncName(cr), "cache of the collection dropped when its settings change", l.p.Pos(ret.Pos()))
+				} else {
+					l.bad("C17.R8", FuncName(cr), "cache of the collection dropped when its settings change", "Create changes the cache / async settings of a stored schema and returns successfully without dropping the cached objects of that collection: while caching is off the cache is not maintained, so switching it on again later serves outdated objects and finds deleted ones", l.p.Pos(ret.Pos()), x, st, ret)
+				}
+			}, onEvent: func(l *effListener, x *Explorer, st *State, ev *Event) {
 				if ev.Kind == EvAccess && ev.Write && ev.Struct == a.Schema && (ev.Field == a.SchCompress || ev.Field == a.SchExtension || ev.Field == a.SchFields) {
 					if _, isStore := ev.Instr.(*ssa.Store); isStore {
 						if ev.Tags&(TFresh|TDecoded) != 0 && ev.Tags&TFromTbl == 0 {
